@@ -2,7 +2,7 @@
 import collections
 from . import common as C
 
-HEADER = ('From WM Require Import Base.Prelude Handler.Retry Handler.RetryMonitor Corr.C12.\n'
+HEADER = ('From WM Require Import Base.Prelude Message.Model Handler.RouterHandle Handler.Retry Handler.RetryMonitor Corr.C12.\n'
           'From Coq Require Import QArith.\nOpen Scope Z_scope.\n')
 
 TRUSTED_BASE = [
@@ -111,8 +111,8 @@ def evaluate(pid, res, data, tag):
         if any(e[0] == 0 and e[4] != 1 for e in c['trace']):
             res.violations.append(dict(signature='C12/other-message', what='an attempt was handed a different message object', case=describe(c)))
             continue
-        if c['mode'] == 'router' and c.get('settle', -1) != (1 if c['err'] == 0 else 2):
-            res.mismatches.append(dict(kind='C12 in a Router: message %s although Retry returned %s' % (['left unsettled', 'acked', 'nacked'][c['settle']], 'nil' if c['err'] == 0 else 'an error'), case=describe(c)))
+        if c['mode'] == 'router':
+            res.count('router: publisher %s, message %s' % (['accepts', 'fails'][c.get('pub', 0)], ['unsettled', 'acked', 'nacked'][c['settle']]))
         if any(e[0] == 1 and e[4] != 1 for e in c['trace']):
             res.mismatches.append(dict(kind='C12 Logger.Error was not given the error of the attempt that just failed', case=describe(c)))
         good.append(c)
@@ -129,6 +129,24 @@ def evaluate(pid, res, data, tag):
         for i in r['R_mis']:
             res.mismatches.append(dict(kind='Corr.C12.c12_mismatch (Handler/Retry.v retry vs middleware.Retry)',
                                        explained_by_violation=i in r['R_vio'], case=describe(chunk[i])))
+    logged = [c for c in good if c['cfg']['log'] and any(e[0] == 1 for e in c['trace'])]
+    for part, chunk in enumerate(C.chunks(logged, 400)):
+        terms = ['(C12L %s %s)' % (case_term(c), C.coq_list([C.coq_N(e[5]) for e in c['trace'] if e[0] == 1])) for c in chunk]
+        r = C.coq_eval(pid, 'cases_%s_log_%d' % (tag, part), HEADER + 'Definition cases : list c12_log_case := %s.\n' % C.coq_list(terms),
+                       [('R_lg', 'c12_log_mismatches cases')])
+        for i in r['R_lg']:
+            res.mismatches.append(dict(kind='Corr.C12.c12_log_mismatch (Logger.Error was not handed the error of the attempt that just failed: model log_errs vs observed ids %s)'
+                                            % [e[5] for e in chunk[i]['trace'] if e[0] == 1], case=describe(chunk[i])))
+    routed = [c for c in good if c['mode'] == 'router']
+    if routed:
+        terms = ['(C12R %s %s %s %s)' % (case_term(c), ['PubAccept', 'PubError'][c.get('pub', 0)], ['Unsettled', 'Acked', 'Nacked'][c['settle']],
+                                         C.coq_list([C.coq_list([C.coq_N(x) for x in call]) for call in (c.get('published') or [])])) for c in routed]
+        r = C.coq_eval(pid, 'cases_%s_router' % tag, HEADER + 'Definition cases : list c12_router_case := %s.\n' % C.coq_list(terms),
+                       [('R_rt', 'c12_router_mismatches cases')])
+        for i in r['R_rt']:
+            c = routed[i]
+            res.mismatches.append(dict(kind='Corr.C12.c12_router_mismatch (Retry composed with C02 handle: settlement / Publish calls of the Router differ from the model; '
+                                            'observed %s, published %s)' % (['unsettled', 'acked', 'nacked'][c['settle']], c.get('published')), case=describe(c)))
     return good
 
 def run(ctx):
